@@ -158,6 +158,75 @@ def analyse(mod, run, label, names=None):
             run.check(dominated, "B4-count-changes-only-after-a-membership-result", {"fn": fname, "at": loc(st)},
                       Finding("B4-count-changed-without-membership-result", fname, "cardinality", "store",
                               "%s changes the cardinality by one at %s on a path that has not branched on a membership result for 'value' (search / test-and-set): adding a present element or removing an absent one is counted" % (fname, loc(st)), loc=loc(st)))
+    # ---- B5: a set-algebra function that walks one operand and probes another one walks and probes two different operands, whatever
+    # the outcome of the comparison that picks them (`smaller` / `other`): every choice is evaluated for the three possible orders ----
+    nb5 = 0
+    for fname in ("varintBitmapAnd", "varintBitmapAndNot", "varintBitmapXor", "varintBitmapOr"):
+        fn = mod.fn(fname)
+        if fn is None: continue
+        fi5 = w.fi(fn).prepare(); fn.dom(); idom = fn.dom()
+        def strip5(o):
+            for _ in range(4):
+                if o["k"] == "inst" and fn.imap[o["v"]].op in ("zext", "sext", "trunc", "bitcast"): o = fn.imap[o["v"]].ops[0]
+            return o
+        def key_of_load(o):
+            """(operand index, byte offset) for a load of a field of one of the two operands"""
+            o = strip5(o)
+            if o["k"] != "inst" or fn.imap[o["v"]].op != "load": return None
+            root, off = fi5.ptr(fn.imap[o["v"]].ops[0])
+            if root[0] == "arg" and off.is_const(): return (root[1], off.c)
+            return None
+        def truth(cond, order, d=0):
+            """value of an i1 under `operand 0's field <order> operand 1's field`, order in lt/eq/gt; None if it is not such a test"""
+            cond = strip5(cond)
+            if cond["k"] == "int": return bool(int(cond["v"]))
+            if cond["k"] != "inst" or d > 6: return None
+            x = fn.imap[cond["v"]]
+            if x.op == "xor" and x.ops[1]["k"] == "int" and int(x.ops[1]["v"]) & 1:
+                t = truth(x.ops[0], order, d + 1); return None if t is None else not t
+            if x.op == "phi" and x["t"] == "i1":
+                vals = {truth(c_["v"], order, d + 1) for c_ in x["incoming"]}
+                return vals.pop() if len(vals) == 1 else None
+            if x.op != "icmp": return None
+            ka, kb = key_of_load(x.ops[0]), key_of_load(x.ops[1])
+            if ka is None or kb is None or ka[1] != kb[1] or {ka[0], kb[0]} != {0, 1}: return None
+            o2 = order if ka[0] == 0 else {"lt": "gt", "gt": "lt", "eq": "eq"}[order]
+            p5 = x["pred"].lstrip("us") if x["pred"] not in ("eq", "ne") else x["pred"]
+            return {"lt": o2 == "lt", "le": o2 in ("lt", "eq"), "gt": o2 == "gt", "ge": o2 in ("gt", "eq"), "eq": o2 == "eq", "ne": o2 != "eq"}[p5]
+        def chosen(o, order, d=0):
+            """index of the operand a pointer value denotes under that order, or None"""
+            o = strip5(o)
+            if o["k"] == "arg": return o["v"] if o["v"] in (0, 1) else None
+            if o["k"] != "inst" or d > 6: return None
+            x = fn.imap[o["v"]]
+            if x.op == "select":
+                t = truth(x.ops[0], order)
+                return None if t is None else chosen(x.ops[1] if t else x.ops[2], order, d + 1)
+            if x.op == "phi" and len(x["incoming"]) == 2:
+                dblk = fn.bmap[idom[x.block.id]]; tt = dblk.term
+                if tt.op != "br" or len(tt.ops) != 3: return None
+                t = truth(tt.ops[0], order)
+                if t is None: return None
+                taken = tt.ops[2]["v"] if t else tt.ops[1]["v"]
+                for c_ in x["incoming"]:
+                    if c_["b"] == taken or fn.dominates(taken, c_["b"]): return chosen(c_["v"], order, d + 1)
+            return None
+        its = [c for c in fn.calls("varintBitmapCreateIterator")]
+        for pr in fn.calls("varintBitmapContains"):
+            cands = [c for c in its if (c.block.id == pr.block.id and c.idx < pr.idx) or (c.block.id != pr.block.id and fn.dominates(c.block.id, pr.block.id))]
+            if not cands: continue
+            it5 = max(cands, key=lambda c: (len(fn.dom_chain(c.block.id)), c.idx))          # the innermost / latest iterator that is live here
+            nb5 += 1
+            bad = None
+            for order in ("lt", "eq", "gt"):
+                a5, b5 = chosen(it5.ops[0], order), chosen(pr.ops[0], order)
+                if a5 is None or b5 is None: bad = "undecided"; break
+                if a5 == b5: bad = order; break
+            if bad == "undecided": run.defer_broken("B5 %s: which operand is walked / probed at %s is not decided by a comparison of the two operands" % (fname, loc(pr))); continue
+            run.check(bad is None, "B5-walked-and-probed-operands-differ", {"fn": fname, "probe": loc(pr)},
+                      Finding("B5-operand-walked-and-probed-is-the-same", fname, "operands", "order-%s" % bad,
+                              "%s: when the two operands' cardinalities compare '%s' the operand that is walked and the operand that is probed at %s are the same one: the result is that operand (or nothing), not the set operation" % (
+                                  fname, {"lt": "first < second", "eq": "equal", "gt": "first > second"}.get(bad, bad), loc(pr)), loc=loc(pr)))
     # ---- B3 ----
     nfree = 0
     for fn in sorted(mod.defined(), key=lambda f: f.name):
